@@ -196,6 +196,24 @@ class CallMixin:
             self.unsupported(node, 'class constant is not a simple expression')
         return res[0][1]
 
+    def overridden_below(self, cls, attr):
+        """does some subclass (in the same modules we know) assign the class attribute too?"""
+        key = self.class_key(cls)
+        memo = self.__dict__.setdefault('_ovr', {})
+        if (key, attr) not in memo:
+            pc = self.pyclass(key)
+            res = False
+            if pc is not None and isinstance(pc, type):
+                work = list(pc.__subclasses__())
+                while work and not res:
+                    c = work.pop()
+                    res = attr in vars(c)
+                    work.extend(c.__subclasses__())
+            else:
+                res = True
+            memo[(key, attr)] = res
+        return memo[(key, attr)]
+
     def class_property(self, cls, attr):
         """`name = property(getter, setter)` at class level -> (classinfo, getter expr, setter expr)"""
         for ci in self.mro_infos(cls):
@@ -248,7 +266,16 @@ class CallMixin:
                         return [(st, VFunc('repo', info=f, bound=VFunc('class', pyobj=self.pyclass(cls), key=self.class_key(cls))))]
                     return [(st, VFunc('repo', info=f, bound=base))]
                 if e is not None:
-                    return [(st, self.eval_const_expr(st, ci, e, node))]
+                    v = self.eval_const_expr(st, ci, e, node)
+                    if not getattr(base, 'exact', False) and isinstance(v, (VInt, VBool, VStr)) and self.overridden_below(cls, attr):
+                        # subclasses override this class constant: its value depends on the object's dynamic class
+                        f = z3.Function('clsattr:' + attr, I, sort_of(v.ty))
+                        return [(st, from_term(v.ty, f(base.t)))]
+                    if not getattr(base, 'exact', False) and isinstance(v, (VInt, VBool, VStr)) and not getattr(self, 'no_facts', 0):
+                        # no subclass overrides it: the dynamic-class view of the attribute is this constant
+                        f = z3.Function('clsattr:' + attr, I, sort_of(v.ty))
+                        st.fact(f(base.t) == v.t)
+                    return [(st, v)]
                 q = ci.qualname + '.' + attr
                 if q in ci.module.classes:
                     return [(st, VFunc('class', pyobj=None, key='%s:%s' % (ci.module.name, q)))]
@@ -260,6 +287,16 @@ class CallMixin:
             ty = self.infer_field_type(cls, attr)
         if ty is not None:
             return [(st, self.read_field(st, base, attr, ty))]
+        pc = self.pyclass(cls) if cls else None
+        if not getattr(base, 'exact', False) and pc is not None and isinstance(pc, type) and issubclass(pc, BaseException):
+            # an attribute the static exception class does not have: a subclass may define it (duck typing):
+            # an unknown callable; without it Python raises AttributeError
+            h = VFunc('opaque')
+            h.t = z3.Int(fresh_name('dynattr_' + attr))
+            s2 = st.copy()
+            self.raise_exc(s2, 'builtins:AttributeError')
+            st.log.append(('getattr_dynamic', base, h))
+            return [(st, h), (s2, None)]
         self.unsupported(node, 'no declared type for field %s.%s' % (cls, attr))
 
     # ------------------------------------------------------------------ calls
